@@ -763,6 +763,8 @@ func handOps() []Op {
 	return []Op{
 		{Query: ""},
 		{Query: "   "},
+		{Query: "\n"},
+		{Query: "\t\r\n ,"},
 		{Query: "{ __typename }"},
 		{Query: "{ gated featuresSeen requestCost }"},
 		{Query: "{ things(n: 3) { id name scaled } requestCost }"},
